@@ -50,6 +50,24 @@ def check_precision(ctx, pop, want, label, detail):
     ctx.prove(bool(ok), label, detail={"requested": repr(want), "found": got, **detail})
 
 
+def check_count(ctx, env, label, detail=None):
+    """C17: the reported number of likelihood evaluations is the number of points the
+    user's likelihood was asked for.  For a sampler that resumed an interrupted run the
+    statement admits two readings -- the points asked of THIS sampler, or those plus all
+    the points asked of the interrupted run -- and either is accepted; nothing else is."""
+    smp = env.sampler
+    own = env.target.n_points
+    allowed = [own]
+    before = getattr(env, "points_asked_before", None)
+    if before is not None:
+        allowed.append(own + before)
+    ctx.prove(
+        smp.n_likelihood_evaluations in allowed,
+        label,
+        detail={"reported": smp.n_likelihood_evaluations, "asked_of_this_sampler": own, "asked_of_the_interrupted_run": before, **(detail or {})},
+    )
+
+
 def check_run(ctx, env, props, label_suffix=""):
     smp = env.sampler
     fns = env.fns
@@ -183,11 +201,7 @@ def check_run(ctx, env, props, label_suffix=""):
 
     # ---- C17 ------------------------------------------------------------------
     if "C17" in props:
-        ctx.prove(
-            smp.n_likelihood_evaluations == env.target.n_points,
-            "c17/count" + sfx,
-            detail={"reported": smp.n_likelihood_evaluations, "asked": env.target.n_points},
-        )
+        check_count(ctx, env, "c17/count" + sfx)
     return True
 
 
